@@ -26,6 +26,12 @@ Theorem C11_slice_guard_exact : forall (A : Type) (content : list A) (first seco
 Proof. exact @slice_panic_iff. Qed.
 Print Assumptions C11_slice_guard_exact.
 
+(* the variant evaluated by the correspondence check is the same function *)
+Theorem C11_slice_exec_eq : forall (A : Type) (content : list A) (first second : Z),
+  slice_array_exec content first second = slice_array content first second.
+Proof. exact @slice_array_exec_eq. Qed.
+Print Assumptions C11_slice_exec_eq.
+
 (* .[-5:1] on [1,2] : index out of range at operator_slice.go:56 *)
 Theorem C11_panic_slice_refuted : exists (content : list Z) (first second : Z),
   slice_array content first second = Panic SliceContent.
